@@ -209,10 +209,10 @@ theorem simplifyCore_sub (me : Event) (h : ∀ p ∈ me, selfIntervened p.1 = fa
     obtain ⟨q, hq, hk⟩ := removeRepeated_key _ p hp
     rw [← hk]; exact ((hsplit₁ q).1 hq).2
   have hred := reduceReflexive_plain _ hreflkeys
-  have hredhas : ∀ k x, (reducePlain (removeRepeated (splitReflexive me).1) []).Has k x →
+  have hredhas : ∀ k x, (dropNone (reducePlain (removeRepeated (splitReflexive me).1) [])).Has k x →
       (removeRepeated (splitReflexive me).1).Has k x := by
     intro k x hh
-    rcases (reducePlain_has _ _ k x).1 hh with h0 | h0
+    rcases (reducePlain_has _ _ k x).1 (dropNone_has _ k x hh) with h0 | h0
     · exact absurd h0 (VMap.has_nil _ _)
     · exact h0
   have inMe₂ : ∀ k x, (removeRepeated (splitReflexive me).2).Has k x → (k, x) ∈ me :=
@@ -230,7 +230,7 @@ theorem simplifyCore_sub (me : Event) (h : ∀ p ∈ me, selfIntervened p.1 = fa
     | false =>
       simp only [Bool.false_eq_true, ↓reduceIte] at hc
       cases h2 : anyInconsistent (removeRepeated (splitReflexive me).2)
-          (reducePlain (removeRepeated (splitReflexive me).1) []) with
+          (dropNone (reducePlain (removeRepeated (splitReflexive me).1) [])) with
       | error e => rw [h2] at hc; cases hc
       | ok b2 =>
         rw [h2] at hc
@@ -242,7 +242,7 @@ theorem simplifyCore_sub (me : Event) (h : ∀ p ∈ me, selfIntervened p.1 = fa
           | error e => rw [ha] at hc; cases hc
           | ok a =>
             rw [ha] at hc
-            cases hb : popAll (reducePlain (removeRepeated (splitReflexive me).1) []) with
+            cases hb : popAll (dropNone (reducePlain (removeRepeated (splitReflexive me).1) [])) with
             | error e => rw [hb] at hc; cases hc
             | ok b =>
               rw [hb] at hc
